@@ -70,15 +70,26 @@ def main():
         return table()
     if sys.argv[1] == "--recheck":
         return recheck(sys.argv[2:])
-    one(sys.argv[1], Path(sys.argv[2]), sys.argv[3:])
+    args = sys.argv[1:]
+    suffix = None
+    if "--suffix" in args:            # a worktree holding several changes: patch_Cxx_<suffix>.diff / demo_Cxx_<suffix>.py
+        k = args.index("--suffix")
+        suffix = args[k + 1]
+        del args[k:k + 2]
+    one(args[0], Path(args[1]), args[2:], suffix=suffix)
 
 
-def one(sid, wt, props, keep=None):
+def one(sid, wt, props, keep=None, suffix=None):
     pid = props[0]
     dest = VERIF / "seeded" / sid
     dest.mkdir(parents=True, exist_ok=True)
-    patch = next(wt.glob("patch_*.diff"))
-    demo = next(wt.glob("demo_*.py"))
+    patch = next(wt.glob(f"patch_*_{suffix}.diff" if suffix else "patch_*.diff"))
+    demo = next(wt.glob(f"demo_*_{suffix}.py" if suffix else "demo_*.py"))
+    if suffix:
+        # the worktree may have another change applied: start from HEAD and apply this one
+        sh(["git", "checkout", "--", "src"], cwd=wt)
+        rc0, out0 = sh(["git", "apply", str(patch)], cwd=wt)
+        assert rc0 == 0, out0
     if patch.resolve() != (dest / "patch.diff").resolve():
         shutil.copy(patch, dest / "patch.diff")
     if demo.resolve() != (dest / demo.name).resolve():
